@@ -21,6 +21,9 @@ fn same(a: &Out<Value>, b: &Out<Value>) -> bool {
 }
 
 thread_local! {
+    /// genuine disclosures of the credential at hand that are NOT part of the triple being verified; offered
+    /// inside an unknown `header` member of one JSON rendering
+    static HEADER_POOL: std::cell::RefCell<Vec<String>> = std::cell::RefCell::new(vec![]);
     static CONTROL_AFTER: std::cell::RefCell<std::collections::HashMap<String, u32>> = std::cell::RefCell::new(Default::default());
 }
 
@@ -53,6 +56,10 @@ pub fn both(parts: &Parts, key: &DecodingKey, aud: Option<&str>, nonce: Option<&
         return false;
     }
     let mut variants = vec![("json", parts.to_json_styled(0, false)), ("json+unknown_members", parts.to_json_styled(0, true))];
+    let pool = HEADER_POOL.with(|p| p.borrow().clone());
+    if !pool.is_empty() {
+        variants.push(("json+header_member_carrying_disclosures", parts.to_json_with_header(&pool)));
+    }
     if parts.kb.is_none() {
         variants.push(("json_kb_null", parts.to_json_styled(1, false)));
         variants.push(("json_kb_empty_string", parts.to_json_styled(2, false)));
@@ -154,6 +161,7 @@ fn honest(rep: &Report) {
         let transcoded = cred.parts.serialize(other);
         let (aud, nonce) = if cfg.hk != Hk::None { (Some(pipeline::AUD), Some(pipeline::NONCE)) } else { (None, None) };
         reused_pair(&cred, &transcoded, &gen::selections_coarse(u), l);
+        HEADER_POOL.with(|p| *p.borrow_mut() = cred.parts.disclosures.clone());
         for sel in gen::selections(u) {
             // holders built from either form select the same disclosures
             let mut outs = vec![];
@@ -198,10 +206,15 @@ fn honest(rep: &Report) {
 }
 
 // (b) tampered issuer-signed JWTs
+fn clear_pool() {
+    HEADER_POOL.with(|p| p.borrow_mut().clear());
+}
+
 fn tampered(rep: &Report) {
     let mut l0 = Local::default();
     let bs = super::c02::bases(&mut l0);
     par_for(rep, bs.len(), |i, l| {
+        clear_pool();
         let b = &bs[i];
         let key = keys::issuer_dec(b.cfg.alg, 0);
         let (aud, nonce) = super::c02::expectation(&b.cfg, true);
@@ -239,6 +252,15 @@ fn tampered(rep: &Report) {
             let mut parts = b.parts.clone();
             parts.jwt = jwt;
             both_then_honest(&parts, &b.parts, &key, aud, nonce, "tampered_jwt", &what, l);
+            // a holder can be built from the compact form iff it can be built from the JSON form
+            let hc = drive::holder_new(&parts.to_compact(), Fmt::Compact).class();
+            if codec::parse_compact(&parts.to_compact()).as_ref() == Some(&normalize(&parts)) {
+                let hj = drive::holder_new(&parts.to_json(), Fmt::Json).class();
+                if hc != hj {
+                    let case = json!({"kind": "c10_holder_new", "jwt": parts.jwt, "disclosures": parts.disclosures, "kb": parts.kb, "label": what});
+                    l.violation(Violation::new("holder_new", if hc == "Panic" || hj == "Panic" { "panic" } else { "formats_disagree" }, format!("c10_holder_new_differs:{hc}->{hj}"), "tampered_jwt/holder_new", format!("{what}: compact {hc}, json {hj}"), case));
+                }
+            }
             both(&parts, &keys::issuer_dec(b.cfg.alg, 1), aud, nonce, "tampered_jwt_other_key", &what, l);
         }
     });
@@ -258,8 +280,10 @@ fn lists(rep: &Report) {
     par_for(rep, items.len(), |i, l| {
         let (ti, s) = &items[i];
         let u = &ts[*ti];
+        clear_pool();
         let Some(cred) = pipeline::issue_checked(u, s, &Cfg::CHEAP, Checks::default(), "C10", l) else { return };
         let Some(other) = pipeline::issue_checked(u, s, &Cfg::CHEAP, Checks::default(), "C10", l) else { return };
+        HEADER_POOL.with(|p| *p.borrow_mut() = cred.parts.disclosures.clone());
         let k = super::c03::knowledge(&cred, &other);
         if k.genuine.len() > 4 {
             return;
@@ -304,6 +328,7 @@ fn kb_attacks(rep: &Report) {
         par_for(rep, items.len(), |i, l| {
             let (ji, li, ki) = items[i];
             let j = &w.sessions[ji];
+            HEADER_POOL.with(|p| *p.borrow_mut() = j.genuine.iter().map(|x| x.1.clone()).collect());
             let (lab, list) = &super::c04::lists_for(j)[li];
             let kb = &w.kbs[ki];
             let parts = Parts { jwt: j.cred.parts.jwt.clone(), disclosures: list.clone(), kb: kb.token.clone() };
@@ -334,6 +359,7 @@ fn ill_formed(rep: &Report) {
         }
     }
     par_for(rep, items.len(), |i, l| {
+        clear_pool();
         let (bi, devs) = &items[i];
         let b = sdbuild::build(&bases[*bi].1, devs);
         let jwt = tokens::sign_payload(&b.payload, Alg::HS256, 0);
@@ -419,6 +445,18 @@ pub fn replay(case: &Value) -> Vec<Violation> {
             };
             for k in keys_to_try {
                 both(&parts, &k, case["aud"].as_str(), case["nonce"].as_str(), space, case["label"].as_str().unwrap_or(""), &mut l);
+            }
+        }
+        "c10_holder_new" => {
+            let parts = Parts {
+                jwt: case["jwt"].as_str().unwrap().to_string(),
+                disclosures: case["disclosures"].as_array().unwrap().iter().map(|x| x.as_str().unwrap().to_string()).collect(),
+                kb: case["kb"].as_str().map(str::to_string),
+            };
+            let hc = drive::holder_new(&parts.to_compact(), Fmt::Compact).class();
+            let hj = drive::holder_new(&parts.to_json(), Fmt::Json).class();
+            if hc != hj {
+                l.violation(Violation::new("holder_new", "formats_disagree", format!("c10_holder_new_differs:{hc}->{hj}"), "tampered_jwt/holder_new", String::new(), case.clone()));
             }
         }
         "c10_reused_pair" => {
